@@ -1,15 +1,52 @@
 """C02 — Filtering an hourly collection selects exactly the requested time steps.
 
-Model: lean/Ladybug/Model/Filter.lean (on Model/AP.lean, Model/Cal.lean); theorems:
-lean/Ladybug/Props/C02.lean; driver: drv_c02.  Tie: correspondence on the ops below (the model is
-hand-written from datacollection.py / _datacollectionbase.py with fixes/C02_*.patch applied).
+Model: lean/Ladybug/Model/Filter.lean (pure filters) and lean/Ladybug/Model/FilterObj.lean (object state
+machine: setters, in-place cull, refused operations, immutable twins, the lazily filled `_datetimes`
+slot) on Model/AP.lean, Model/Cal.lean; theorems: lean/Ladybug/Props/C02.lean; driver: drv_c02.
+Tie: correspondence on the ops below (the model is hand-written from datacollection.py /
+_datacollectionbase.py / datacollectionimmutable.py with fixes/C02_*.patch applied).
 The oracle is written from the property statement with plain integer minutes of the year and the
 stdlib calendar; it never looks at the model.
+
+Stages that catch changes
+  * correspondence, fresh object + one call (round 1/2) and HISTORIES on one object (round 3, op `hist`):
+    the model's `step` against the real object after every operation of a generated history;
+  * oracle, plain cases and histories (`_check_history`): after every step the observables the property
+    speaks about (filter results, the pairs, the header period) are those of the public state the user
+    established (`_Shadow`, plain Python); a refused operation leaves them as before;
+  * process order (`_process_order`): the fixed corpus, one-coordinate families (same dates, other leap flag /
+    timestep) and a sample of histories and plain cases in 3-4 fresh interpreters, rare classes first in one,
+    last in another, shuffled in the rest; a failure that needs earlier cases carries `{"order": [...]}`.
+
+Producers and their consumers (each consumer is exercised by correspondence and oracle, so that a producer
+changed together with ONE consumer shows at the others):
+  * HourlyDiscontinuousCollection._filter_by_moys_slow -> Disc.filter_by_moys -> Disc.filter_by_hoys,
+    Disc.filter_by_analysis_period (+ the order sort), the same three on HourlyDiscontinuousCollectionImmutable,
+    and on every Disc result of a continuous filter (chain);
+  * HourlyContinuousCollection.filter_by_moys (index arithmetic) -> Cont.filter_by_hoys, the hour-window branch
+    of Cont.filter_by_analysis_period, the immutable twin; compared with the search on to_discontinuous();
+  * _get_analysis_period_subset -> both branches of Cont.filter_by_analysis_period; the result header -> every
+    later filter of the result (ops `chain`);
+  * the slice arithmetic -> whole-day branch; its result (a continuous collection) -> filters of the result;
+  * `.datetimes` (lazily filled on the continuous class, overwritten by convert_to_culled_timestep) ->
+    Cont.filter_by_moys, _filter_by_pattern/_range/_statement, to_discontinuous, moys_dict, duplicate, to_immutable;
+  * `values` setter / _check_values -> constructors of all five classes and their immutable twins, `values = …`;
+    `__setitem__`; convert_to_unit / _ip / _si (oracle only) -> `_values` seen by every filter;
+  * _filter_by_pattern/_range/_statement -> filter_by_* of Base (daily, monthly, monthly-per-hour, discontinuous)
+    and the three overrides of the continuous class; `_enumeration` (class map) -> result class of those;
+  * filter_by_doys / filter_by_months / filter_by_months_per_hour -> their filter_by_analysis_period;
+  * AnalysisPeriod.moys / hoys / doys_int / months_int / months_per_hour / __len__ / st_time / is_reversed
+    (lazily computed `_timestamps_data`) -> all period filters: the same AnalysisPeriod OBJECT is re-used inside a
+    history, with one of its listings read before the filter (`pre`).
 """
 import calendar
 import contextlib
 import io
+import json
+import os
 import struct
+import subprocess
+import sys
 from collections import Counter, OrderedDict
 from datetime import datetime, timedelta
 
@@ -21,7 +58,7 @@ GREP_MODULES = ['Ladybug.Py', 'Ladybug.Model.Cal', 'Ladybug.Gen.DtTables', 'Lady
                 'Ladybug.Model.AP', 'Ladybug.Gen.ApTables', 'Ladybug.Proofs.C04Lemmas',
                 'Ladybug.Proofs.C04Listings', 'Ladybug.Props.C08', 'Ladybug.Props.C04',
                 'Ladybug.Model.Filter', 'Ladybug.Proofs.C02Lemmas', 'Ladybug.Proofs.C02Index', 'Ladybug.Proofs.C02Cyclic',
-                'Ladybug.Proofs.C02Slice', 'Ladybug.Proofs.C02Order',
+                'Ladybug.Proofs.C02Slice', 'Ladybug.Proofs.C02Order', 'Ladybug.Model.FilterObj', 'Ladybug.Proofs.C02Hist',
                 'Ladybug.Drv.C02', 'Ladybug.DrvCore']
 RULE = ('sources: annual | partial (1..120 days, boundary-biased starts incl. 28/29 Feb and both year ends) | '
         'year-wrapping (short Dec->Jan and long), all 12 timesteps (annual: small ones), both leap flags, values = '
@@ -33,7 +70,18 @@ RULE = ('sources: annual | partial (1..120 days, boundary-biased starts incl. 28
         'source / off grid / negative); patterns (shorter, equal, longer, empty, all false); ranges and four '
         'statement shapes on random integers with ties at the bounds; daily / monthly / monthly-per-hour '
         'collections by key lists and by period (leap-year daily collections with days 60 and 366, requests naming '
-        '366 / 367 / 0, periods ending on or wrapping over 31 Dec, sub-hourly monthly-per-hour keys). A case is non-trivial when the implementation returns a '
+        '366 / 367 / 0, periods ending on or wrapping over 31 Dec, sub-hourly monthly-per-hour keys). '
+        'Histories on one object (all five classes and their immutable twins, all 12 timesteps, both leap flags, '
+        'partial / wrapping / 28-29 Feb / year-end periods, one-value collections): 3-14 operations drawn from '
+        'filters of every kind (keys, hours, period with a re-used AnalysisPeriod object one of whose listings is '
+        'read first, pattern, range incl. bounds of exactly 0 / 0.0 / -0.0 and bounds equal to a value, statement, '
+        'plain look), the same question again with the same argument object, accepted setters (values = , '
+        'coll[i] = incl. negative indices, convert_to_culled_timestep, unit conversions), refused operations '
+        '(wrong length / empty / non-list / generator values, index out of range, invalid timestep, unknown unit, '
+        'every setter on an immutable twin, to_discontinuous on a class without it, filters that fail), '
+        'conversions to a twin (duplicate, to_immutable, to_mutable, to_discontinuous) and going on with the '
+        'collection a filter returned; a question follows each non-read operation with probability 0.7 and a '
+        'refused operation opens 15 % of the histories. A case is non-trivial when the implementation returns a '
         'collection; distinct = distinct request line.')
 TRUSTED_BASE = [
     'the model describes datacollection.py with the five fixes/C02_*.patch applied (year-wrapping continuous '
@@ -48,6 +96,12 @@ TRUSTED_BASE = [
     'AnalysisPeriod.hoys are computed with IEEE doubles by the driver; theorem C02_hoys assumes round(hoy(m) * 60) '
     '= m, which the check verifies for every minute of both years on every run',
     'eval() of the statement filter is a predicate parameter of the model; four statement shapes are compared',
+    'object state machine (Model/FilterObj.lean): which reads fill the hidden `_datetimes` slot is modelled roughly '
+    '(the slot is not observable; C02_read_pure shows it cannot matter while it is coherent); unit conversions and '
+    'the monthly-per-hour class take part in the oracle histories only (not in the model); the twins are modelled '
+    'by a mutability flag (their refusals are AttributeError for every setter / in-place operation)',
+    'process-order runs use the same oracle in fresh interpreters; what they add is only the absence of state left '
+    'by earlier cases',
 ]
 ASSUMPTIONS = [
     'reading of the statement: "time steps present in the collection" = the requested minutes are date-times of '
@@ -67,8 +121,13 @@ LEVEL_TEXT = ('Machine-checked Lean 4 theorems over an executable, value-polymor
               'constructor\'s length check holds; hour-window period filters and hour lists reduce to the minute '
               'path; the discontinuous period filter returns the requested pairs in the period\'s time order; '
               'pattern / range / statement / key filters (daily, monthly, monthly-per-hour, also by period) keep '
-              'exactly the satisfying positions; propagation of validated_a_period. The model is compared with the '
-              'real classes on structure-directed inputs on every run.')
+              'exactly the satisfying positions; propagation of validated_a_period; for the object state machine '
+              '(setters, in-place cull, refused operations, immutable twins, conversions, chained filters, the lazily '
+              'filled date-time slot): reads are pure and order-independent, a refused operation leaves every '
+              'observation unchanged, and after any history (with in-place culls of continuous objects to a dividing '
+              'timestep) every filter answers as on a fresh object built from the final public state, so the filter '
+              'theorems hold for every reachable object. The model is compared with the real classes on '
+              'structure-directed inputs and operation histories on every run.')
 LEVEL_NOTE = ('Trusted: Lean kernel; axioms propext/Classical.choice/Quot.sound only; the correspondence run '
               '(agreement on generated inputs only); rational model of the float index arithmetic; IEEE part of '
               'filter_by_hoys isolated as a hypothesis that is checked exhaustively each run; Python sorted() '
@@ -602,7 +661,7 @@ def correspondence(ctx):
 
     srcs = _sources(ctx, rng)
     period_cases, moy_cases, hoy_cases, pat_cases, val_cases = [], [], [], [], []
-    budget = ctx.n(2_500_000, 12_000_000)          # total values moved through period filters
+    budget = ctx.n(2_000_000, 12_000_000)          # total values moved through period filters
     used = 0
     for c, kind in srcs:
         ctx.count('src:' + kind)
@@ -612,7 +671,7 @@ def correspondence(ctx):
         kinds = list(PERIOD_KINDS)
         if kind == 'annual':
             kinds += ['wrap-long', 'straddle', 'wrap-long']
-        npf = ctx.n(6, 14) if nvals > 5000 else ctx.n(10, 22)
+        npf = ctx.n(5, 14) if nvals > 5000 else ctx.n(8, 22)
         for _ in range(npf):
             fk = rng.choice(kinds)
             f = _gen_filter(rng, c, fk)
@@ -804,7 +863,33 @@ def correspondence(ctx):
                                                           _ints([1 if b else 0 for b in x[2]])),
                   _guard(lambda x: _show(_daily(x[0], x[1], None, _vf(x[1]) == '1').filter_by_pattern(list(x[2])))), canon=_canon,
                   key=lambda x: ('daily',) + tuple(map(str, x)))
+
+    # -- histories on one object: every step of the model's state machine against the real object
+    hcases = []
+    for _ in range(ctx.n(170, 800)):
+        init, ops = _gen_history(rng, True)
+        _count_history(ctx, 'hist', init, ops)
+        hcases.append((init, ops))
+    compare_batch(ctx, 'hist', hcases, _hist_line, _run_real_history, canon=_canon,
+                  key=lambda x: json.dumps(x, sort_keys=True))
     _CACHE.clear()
+
+
+def _count_history(ctx, tag, init, ops):
+    ctx.count('%s:kind=%s' % (tag, init['kind']))
+    ctx.count('%s:%s' % (tag, 'mutable' if init['mutable'] else 'immutable'))
+    ctx.count('%s:leap=%s' % (tag, init['ap'][7]))
+    ctx.count('%s:ts=%d' % (tag, init['ap'][6]))
+    if len(init['vals']) == 1:
+        ctx.count('%s:single-value' % tag)
+    if (init['ap'][0], init['ap'][1]) > (init['ap'][3], init['ap'][4]):
+        ctx.count('%s:wrapping-header' % tag)
+    for op in ops:
+        ctx.count('%s:op=%s' % (tag, op[0] if op[0] not in ('read', 'chain') else op[0] + '-' + op[1][0]))
+        if op[0] == 'read' and op[1][0] == 'range' and (op[1][1] == 0 or op[1][2] == 0):
+            ctx.count('%s:range-zero-bound' % tag)
+    if ops and ops[0][0] not in ('read', 'chain', 'repeat', 'dup', 'toimm', 'tomut'):
+        ctx.count('%s:setter-first' % tag)
 
 
 def _vf(keys):
@@ -908,6 +993,10 @@ def _short(l, k=6):
 
 
 def _check_case(op, inp):
+    if op == 'history':
+        return _check_history(inp)
+    if op == 'procorder':
+        return _check_procorder(inp)
     src = tuple(inp['src']) if 'src' in inp else None
     if op == 'period':
         f = tuple(inp['filter'])
@@ -1064,6 +1153,903 @@ def _check_case(op, inp):
     raise ValueError('unknown op ' + op)
 
 
+# ---------------------------------------------------------------------------------------------
+# histories on ONE object (round 3): setters, in-place operations, refused operations, twins, chains
+#
+# A history is  init = {kind, mutable, ap, validated, keys, vals, dtype}  +  ops (JSON lists):
+#   ['read', R] | ['chain', R] | ['repeat'] | ['setv', vals] | ['setbad', k] | ['seti', i, v] | ['cull', ts] |
+#   ['unit', u] | ['dup'] | ['toimm'] | ['tomut'] | ['todisc']
+#   R = ['keys', req] | ['hoys', floats] | ['period', fields, pre] | ['pattern', bools] | ['range', lo, hi] |
+#       ['stmt', code, x, y, z] | ['all']
+# kinds: c continuous, d discontinuous hourly, y daily, m monthly, p monthly-per-hour (oracle only).
+# 'repeat' asks the last question again with the SAME argument object; 'pre' names a property of the
+# (pooled, re-used) AnalysisPeriod object that is read before the filter; 'unit' (oracle only) is
+# convert_to_unit / convert_to_ip / convert_to_si on a Temperature collection.
+
+
+KIND_NAMES = {'c': 'continuous', 'd': 'discontinuous', 'y': 'daily', 'm': 'monthly', 'p': 'monthly-per-hour'}
+
+
+def _hist_build(init):
+    from ladybug import datacollection as dc
+    from ladybug import datacollectionimmutable as dci
+    from ladybug.header import Header
+    from ladybug.dt import DateTime
+    kind, mutable, ap = init['kind'], init['mutable'], tuple(init['ap'])
+    if init.get('dtype') == 'temp':
+        from ladybug.datatype.temperature import Temperature
+        header = Header(Temperature(), 'C', _mk_ap(ap))
+    else:
+        header = _header(ap)
+    vals = list(init['vals'])
+    name = {'c': 'HourlyContinuousCollection', 'd': 'HourlyDiscontinuousCollection', 'y': 'DailyCollection',
+            'm': 'MonthlyCollection', 'p': 'MonthlyPerHourCollection'}[kind]
+    cls = getattr(dc, name) if mutable else getattr(dci, name + 'Immutable')
+    if kind == 'c':
+        return cls(header, vals)
+    keys = init['keys']
+    if kind == 'd':
+        keys = [DateTime.from_moy(m, ap[7]) for m in keys]
+    elif kind == 'p':
+        keys = [tuple(k) for k in keys]
+    coll = cls(header, vals, list(keys))
+    coll._validated_a_period = bool(init.get('validated', False))
+    return coll
+
+
+def _kind_of(coll):
+    from ladybug import datacollection as dc
+    if isinstance(coll, dc.HourlyContinuousCollection):
+        return 'c'
+    if isinstance(coll, dc.HourlyDiscontinuousCollection):
+        return 'd'
+    if isinstance(coll, dc.DailyCollection):
+        return 'y'
+    if isinstance(coll, dc.MonthlyCollection):
+        return 'm'
+    return 'p'
+
+
+def _keys_of(coll):
+    k = _kind_of(coll)
+    if k in 'cd':
+        return [d.moy for d in coll.datetimes]
+    if k == 'p':
+        return [tuple(d) for d in coll.datetimes]
+    return [int(d) for d in coll.datetimes]
+
+
+class _Real(object):
+    """One object of the implementation and the argument objects of its history."""
+
+    def __init__(self, init):
+        self.obj = _hist_build(init)
+        self.aps = {}
+        self.last = None
+
+    def _ap(self, fields):
+        fields = tuple(fields)
+        if fields not in self.aps:
+            self.aps[fields] = _mk_ap(fields)
+        return self.aps[fields]
+
+    def _arg(self, r):
+        t = r[0]
+        if t == 'keys':
+            return [tuple(k) if isinstance(k, list) else k for k in r[1]]
+        if t == 'hoys':
+            return list(r[1])
+        if t == 'period':
+            return self._ap(r[1])
+        if t == 'pattern':
+            return [bool(b) for b in r[1]]
+        return None
+
+    def _ask(self, r, arg):
+        o, t = self.obj, r[0]
+        if t == 'keys':
+            k = _kind_of(o)
+            if k in 'cd':
+                return o.filter_by_moys(arg)
+            return getattr(o, {'y': 'filter_by_doys', 'm': 'filter_by_months', 'p': 'filter_by_months_per_hour'}[k])(arg)
+        if t == 'hoys':
+            return o.filter_by_hoys(arg)
+        if t == 'period':
+            pre = r[2] if len(r) > 2 else ''
+            if pre == 'len':
+                len(arg)
+            elif pre:
+                getattr(arg, pre)
+            return o.filter_by_analysis_period(arg)
+        if t == 'pattern':
+            return o.filter_by_pattern(arg)
+        if t == 'range':
+            return _range(o, (r[1], r[2]))
+        if t == 'stmt':
+            return o.filter_by_conditional_statement(STMTS[r[1]](*r[2:5]))
+        if t == 'all':
+            return o
+        raise ValueError('unknown read %r' % (r,))
+
+    def do(self, op):
+        """-> ('coll', collection, is_all) | ('done',) | ('err', class name, message)."""
+        try:
+            with _quiet():
+                return self._do(op)
+        except Exception as e:
+            return ('err', err_name(e), '%s: %s' % (type(e).__name__, str(e)[:160]))
+
+    def _do(self, op):
+        t, o = op[0], self.obj
+        if t in ('read', 'chain', 'repeat'):
+            if t == 'repeat':
+                if self.last is None:
+                    return ('coll', o, True)
+                r, arg = self.last
+            else:
+                r = op[1]
+                arg = self._arg(r)
+                self.last = (r, arg)
+            res = self._ask(r, arg)
+            if t == 'chain':
+                self.obj = res if r[0] != 'all' else res.to_mutable()
+            return ('coll', res, r[0] == 'all')
+        if t == 'setv':
+            o.values = list(op[1])
+        elif t == 'setbad':
+            k = op[1]
+            o.values = (x for x in [1, 2, 3]) if k == 1 else ['abc', {'a': 1}, 7, None][len(o) % 4]
+        elif t == 'seti':
+            o[op[1]] = op[2]
+        elif t == 'cull':
+            o.convert_to_culled_timestep(op[1])
+        elif t == 'unit':
+            u = op[1]
+            if u == 'ip':
+                o.convert_to_ip()
+            elif u == 'si':
+                o.convert_to_si()
+            else:
+                o.convert_to_unit(u)
+        elif t == 'dup':
+            self.obj = o.duplicate()
+        elif t == 'toimm':
+            self.obj = o.to_immutable()
+        elif t == 'tomut':
+            self.obj = o.to_mutable()
+        elif t == 'todisc':
+            self.obj = o.to_discontinuous()
+        else:
+            raise ValueError('unknown op %r' % (op,))
+        return ('done',)
+
+
+def _show_all(coll):
+    k = _kind_of(coll)
+    keys = _keys_of(coll)
+    vals = coll.values
+    return ('ok A %s %s %s %d %s' % (k, _line_ap(_ap_fields(coll.header.analysis_period)), _b(coll.validated_a_period),
+                                      len(vals), ' '.join('%s %s' % kv for kv in zip(keys, vals)))).rstrip()
+
+
+def _hist_text(res):
+    if res[0] == 'done':
+        return 'done'
+    if res[0] == 'err':
+        return 'err:' + res[1]
+    try:
+        with _quiet():
+            return _show_all(res[1]) if res[2] else _show(res[1])
+    except Exception as e:
+        return 'err-show:' + err_name(e)
+
+
+def _run_real_history(case):
+    init, ops = case
+    try:
+        with _quiet():
+            real = _Real(init)
+    except Exception as e:
+        return 'err-build:' + err_name(e)
+    return ' | '.join(_hist_text(real.do(op)) for op in ops)
+
+
+def _read_tokens(r):
+    t = r[0]
+    if t == 'keys':
+        return 'keys %s' % _ints(r[1])
+    if t == 'hoys':
+        return 'hoys %d %s' % (len(r[1]), ' '.join(_fbits(h) for h in r[1]))
+    if t == 'period':
+        return 'period %s' % _line_ap(r[1])
+    if t == 'pattern':
+        return 'pattern %s' % _ints([1 if b else 0 for b in r[1]])
+    if t == 'range':
+        return 'range %s %s' % (_opt(r[1]), _opt(r[2]))
+    if t == 'stmt':
+        return 'stmt %d %d %d %d' % tuple(r[1:5])
+    return 'all'
+
+
+def _hist_line(case):
+    """Request line of the model driver for a history (no 'unit' ops, no kind 'p')."""
+    init, ops = case
+    toks = []
+    last = None
+    for op in ops:
+        t = op[0]
+        if t in ('read', 'chain'):
+            last = op[1]
+            toks.append('%s %s' % (t, _read_tokens(op[1])))
+        elif t == 'repeat':
+            toks.append('read %s' % _read_tokens(last if last is not None else ['all']))
+        elif t == 'setv':
+            toks.append('setv %s' % _ints(op[1]))
+        elif t == 'setbad':
+            toks.append('setbad %d' % op[1])
+        elif t == 'seti':
+            toks.append('seti %d %d' % (op[1], op[2]))
+        elif t == 'cull':
+            toks.append('cull %d' % op[1])
+        else:
+            toks.append(t)
+    return 'hist %s %s %s %s %s %s %d %s' % (
+        init['kind'], _b(init['mutable']), _line_ap(init['ap']), _b(init.get('validated', False)),
+        _ints(init['keys'] if init['kind'] != 'c' else []), _ints(init['vals']), len(ops), ' '.join(toks))
+
+
+# -- the specification of an object: a pure function of its public state -------------------------
+
+
+class _Shadow(object):
+    """Public state of a collection as the user established it, and what the property requires of a
+    filter of it (plain Python from the statement; no model, no implementation)."""
+
+    def __init__(self, init):
+        self.kind = init['kind']
+        self.mutable = bool(init['mutable'])
+        self.ap = tuple(init['ap'])
+        self.vals = list(init['vals'])
+        if self.kind == 'c':
+            self.keys = _ref_moys(self.ap)
+        elif self.kind == 'p':
+            self.keys = [tuple(k) for k in init['keys']]
+        else:
+            self.keys = list(init['keys'])
+        self.temp = init.get('dtype') == 'temp'
+        self.last = None
+        self.note = None      # 'cont-cull-nondividing': date-times no longer the steps of the header period
+
+    def pairs(self):
+        return list(zip(self.keys, self.vals))
+
+    # -- what a read must answer: None = outside the property's quantifier; else
+    #    {'want': pairs, 'ordered': bool, 'header': 'same' | 'contains' | fields}
+    def expect(self, r):
+        t, kind = r[0], self.kind
+        ps = self.pairs()
+        if t == 'all':
+            return {'want': ps, 'ordered': True, 'header': self.ap, 'all': True}
+        if t in ('keys', 'hoys'):
+            if kind not in 'cd' and t == 'hoys':
+                return None
+            if t == 'hoys':
+                req = [int(round(h * 60)) for h in r[1]]
+                if any(abs(h * 60 - m) > 1e-6 for h, m in zip(r[1], req)):
+                    return None
+            else:
+                req = [tuple(k) if isinstance(k, list) else k for k in r[1]]
+            have = set(self.keys)
+            if kind in 'cd':
+                if not req or len(set(req)) != len(req) or any(m not in have for m in req):
+                    return None
+                if len(have) != len(self.keys):
+                    return None
+                rs = set(req)
+                return {'want': [p for p in ps if p[0] in rs], 'ordered': False, 'header': self.ap}
+            rs = set(req)
+            want = [p for p in ps if p[0] in rs]
+            return {'want': want, 'ordered': True, 'header': self.ap} if want else None
+        if t == 'period':
+            f = tuple(r[1])
+            if kind == 'c':
+                if f[6] != self.ap[6] or f[7] != self.ap[7] or self.note:
+                    return None
+                e, dom = _ref_clip(self.ap, f)
+                if not e or not dom:
+                    return None
+                at = dict(ps)
+                return {'want': [(m, at[m]) for m in e], 'ordered': True, 'header': 'contains'}
+            if kind == 'd':
+                if f[6] != self.ap[6] or f[7] != self.ap[7]:
+                    return None
+                order = {}
+                for i, m in enumerate(_ref_moys(f)):
+                    order.setdefault(m, i)
+                want = sorted([p for p in ps if p[0] in order], key=lambda p: order[p[0]])
+                return {'want': want, 'ordered': True, 'header': 'contains'} if want else None
+            fm = _ref_moys(f)
+            if kind == 'y':
+                if f[7] != self.ap[7]:
+                    return None
+                req = set(m // 1440 + 1 for m in fm)
+            else:
+                y = 2016 if f[7] else 2017
+                mons = set((datetime(y, 1, 1) + timedelta(minutes=m)).month for m in fm)
+                if kind == 'm':
+                    req = mons
+                else:
+                    tod = set(m % 1440 for m in fm)
+                    req = set((mo, x // 60, x % 60) for mo in mons for x in tod)
+            want = [p for p in ps if p[0] in req]
+            return {'want': want, 'ordered': True, 'header': f} if want else None
+        if t == 'pattern':
+            pat = r[1]
+            if not pat:
+                return None
+            want = [p for i, p in enumerate(ps) if pat[i % len(pat)]]
+        elif t == 'range':
+            lo, hi = r[1], r[2]
+            want = [p for p in ps if (lo is None or lo < p[1]) and (hi is None or p[1] < hi)]
+        elif t == 'stmt':
+            if self.temp:
+                return None
+            pr = _stmt_pred(r[1], r[2], r[3], r[4])
+            want = [p for p in ps if pr(p[1])]
+        else:
+            raise ValueError('unknown read %r' % (r,))
+        return {'want': want, 'ordered': True, 'header': self.ap} if want else None
+
+    # -- the unchanged implementation's acceptance rules (used by the generator only)
+    def accepts(self, op):
+        t = op[0]
+        n = len(self.vals)
+        if t == 'setv':
+            return self.mutable and len(op[1]) == n and n > 0
+        if t == 'setbad':
+            return False
+        if t == 'seti':
+            return self.mutable and -n <= op[1] < n
+        if t == 'cull':
+            return self.mutable and self.kind in 'cd' and op[1] in VALID_TS
+        if t == 'unit':
+            return self.mutable and self.temp and op[1] in ('C', 'F', 'K', 'ip', 'si')
+        if t == 'todisc':
+            return self.kind == 'c'
+        return True
+
+    def apply(self, op, values_after=None):
+        """The public state after an ACCEPTED setter / in-place operation / conversion.
+        Returns False when the shadow cannot follow (the history ends without a verdict)."""
+        t = op[0]
+        n = len(self.vals)
+        if t == 'setv':
+            if len(op[1]) != n:
+                return False
+            self.vals = list(op[1])
+        elif t == 'seti':
+            if not -n <= op[1] < n:
+                return False
+            self.vals[op[1]] = op[2]
+        elif t == 'cull':
+            if self.kind not in 'cd' or op[1] not in VALID_TS:
+                return False
+            step = 60 // op[1]
+            ps = [p for p in self.pairs() if p[0] % step == 0]
+            self.ap = self.ap[:6] + (op[1], self.ap[7])
+            self.keys = [p[0] for p in ps]
+            self.vals = [p[1] for p in ps]
+            if self.kind == 'c' and self.keys != _ref_moys(self.ap):
+                self.note = 'cont-cull-nondividing'
+            if not ps:
+                return False
+        elif t == 'unit':
+            if values_after is None or len(values_after) != n:
+                return False
+            self.vals = list(values_after)
+        elif t == 'toimm':
+            self.mutable = False
+        elif t == 'tomut':
+            self.mutable = True
+        elif t == 'todisc':
+            if self.kind != 'c':
+                return False
+            self.kind, self.mutable = 'd', True
+        elif t == 'dup':
+            pass
+        else:
+            return False
+        return True
+
+    def become(self, kind, ap, keys, vals):
+        self.kind, self.mutable, self.ap, self.keys, self.vals = kind, True, tuple(ap), list(keys), list(vals)
+        self.note = None
+
+
+def _judge_read(exp, res, leap):
+    """Compare what a read answered (`res` of _Real.do) with what the property requires (`exp`)."""
+    want = exp['want']
+    if res[0] == 'err':
+        return ('%d pairs %s' % (len(want), _short(want, 3)), 'raises ' + res[2], 'raises')
+    if res[0] != 'coll':
+        return ('a collection', repr(res), 'no-result')
+    r = res[1]
+    try:
+        with _quiet():
+            got = list(zip(_keys_of(r), r.values))
+            hdr = _ap_fields(r.header.analysis_period)
+            if exp.get('all'):
+                extra = None
+                if len(r) != len(want):
+                    extra = 'len() = %d' % len(r)
+                elif list(iter(r)) != [v for _, v in want]:
+                    extra = 'iteration gives %s' % _short(list(iter(r)))
+                elif _kind_of(r) in 'cd' and len(set(k for k, _ in want)) == len(want) and r.moys_dict != dict(want):
+                    extra = 'moys_dict differs'
+                if extra:
+                    return ('%d pairs %s' % (len(want), _short(want, 3)), extra, 'state')
+            bad_leap = _dt_problem(r, leap) if _kind_of(r) in 'cd' else None
+    except Exception as e:
+        return ('%d pairs %s' % (len(want), _short(want, 3)), 'reading the result raises %s: %s' % (type(e).__name__, e),
+                'raises')
+    if exp['ordered']:
+        if got != want:
+            what = 'pairs' if Counter(got) != Counter(want) else 'order'
+            return (_short(want), _short(got), what)
+    elif Counter(got) != Counter(want):
+        return (_short(sorted(want)), _short(sorted(got)), 'pairs')
+    h = exp['header']
+    if h == 'contains':
+        hm = set(_ref_moys(hdr))
+        out = [m for m, _ in got if m not in hm]
+        if out:
+            return ('header period %s contains every result date-time' % (hdr,), 'minute %d is not a step of it' % out[0],
+                    'header')
+    elif tuple(h) != hdr:
+        return ('header period %s' % (tuple(h),), str(hdr), 'header')
+    if bad_leap:
+        return ('date-times of the source year', bad_leap, 'leap')
+    return None
+
+
+def _check_history(inp):
+    """Oracle for a history: after every step the observables the property speaks about are those of
+    the public state the user established; a refused operation leaves them as they were."""
+    init, ops = inp['init'], inp['ops']
+    sh = _Shadow(init)
+    sig0 = {'cls': init['kind'], 'mutable': bool(init['mutable'])}
+    try:
+        with _quiet():
+            real = _Real(init)
+    except Exception as e:
+        return _fail('the collection can be built', 'raises %s: %s' % (type(e).__name__, str(e)[:120]),
+                     dict(sig0, what='build', err=type(e).__name__))
+    done = []
+    marks = []
+    for k, op in enumerate(ops):
+        t = op[0]
+        res = real.do(op)
+        if t not in ('read', 'repeat'):
+            marks.append(t + ('-refused' if res[0] == 'err' else ''))
+        if t in ('read', 'chain', 'repeat'):
+            r = sh.last if t == 'repeat' else op[1]
+            if r is None:
+                r = ['all']
+            sh.last = r
+            exp = sh.expect(r)
+            if exp is not None:
+                bad = _judge_read(exp, res, sh.ap[7])
+                if bad:
+                    hist = ', '.join(_op_name(o) for o in done) or 'nothing'
+                    return _fail('after [%s] the %s collection answers %s with %s' % (hist, KIND_NAMES[sh.kind],
+                                                                                      _op_name(op), bad[0]),
+                                 bad[1], dict(sig0, what=bad[2], read=r[0], step=k, state=sh.note or 'coherent',
+                                              after=sorted(set(marks[:-1] if t == 'chain' else marks))))
+            if t == 'chain':
+                if res[0] == 'coll':
+                    if exp is None:
+                        return None                      # cannot follow an answer outside the quantifier
+                    c = res[1]
+                    with _quiet():
+                        sh.become(_kind_of(c), _ap_fields(c.header.analysis_period), _keys_of(c), c.values)
+        elif res[0] == 'done' and not sh.accepts(op):
+            # an operation that should have been refused went through: when the object still is a collection
+            # (one value per date-time, a continuous one in step with its header) that is the new public state;
+            # otherwise the last state the user established stays the reference for the filters that follow
+            marks[-1] = t + '-accepted'
+            try:
+                with _quiet():
+                    o = real.obj
+                    kk, kv = _keys_of(o), list(o.values)
+                    kap, kkind = _ap_fields(o.header.analysis_period), _kind_of(o)
+                if len(kk) == len(kv) and kv and (kkind != 'c' or kk == _ref_moys(kap)):
+                    mut = sh.mutable
+                    sh.become(kkind, kap, kk, kv)
+                    sh.mutable = mut
+            except Exception:
+                pass
+        elif res[0] == 'done':
+            after = None
+            if t == 'unit':
+                with _quiet():
+                    after = list(real.obj.values)
+            if not sh.apply(op, after):
+                return None
+        # a refused operation (res[0] == 'err'): the public state is the one before
+        done.append(op)
+    return None
+
+
+def _op_name(op):
+    t = op[0]
+    if t in ('read', 'chain'):
+        r = op[1]
+        arg = '' if r[0] == 'all' else json.dumps(r[1:])[:80]
+        return '%s %s%s' % ('filter' if t == 'read' else 'go on with filter', r[0], arg)
+    if t == 'setv':
+        return 'values = <%d values>' % len(op[1])
+    if t == 'setbad':
+        return 'values = <no list>'
+    if t == 'seti':
+        return 'coll[%d] = %d' % (op[1], op[2])
+    if t == 'cull':
+        return 'convert_to_culled_timestep(%d)' % op[1]
+    if t == 'unit':
+        return 'convert to %s' % op[1]
+    return {'dup': 'duplicate()', 'toimm': 'to_immutable()', 'tomut': 'to_mutable()', 'todisc': 'to_discontinuous()',
+            'repeat': 'the same question again'}[t]
+
+
+# -- generator of histories ----------------------------------------------------------------------
+
+
+def _hist_init(rng, model_only):
+    kind = rng.choice('ccccdddyym' if model_only else 'ccccdddyymp')
+    leap = rng.random() < 0.5
+    n = _ndays(leap)
+    mutable = rng.random() < 0.75
+    ts = rng.choice(VALID_TS)
+    init = {'kind': kind, 'mutable': mutable, 'validated': rng.random() < 0.5, 'dtype': 'id'}
+    if kind == 'c':
+        shape = rng.choice(['partial', 'partial', 'wrapping', 'feb', 'year-end', 'year-start'])
+        maxdays = max(1, min(4, 1500 // (24 * ts)))
+        length = rng.randrange(1, maxdays + 1)
+        if shape == 'wrapping' and length > 1:
+            la = rng.randrange(1, length)
+            a, b = n - la + 1, length - la
+        else:
+            a = {'feb': max(1, 60 - rng.randrange(0, length + 1)), 'year-end': n - length + 1,
+                 'year-start': 1}.get(shape, rng.randrange(1, n - length + 2))
+            a = max(1, min(a, n - length + 1))
+            b = a + length - 1
+        ap = _date(leap, a) + (0,) + _date(leap, b) + (23, ts, leap)
+        nv = len(_ref_days(ap)) * 24 * ts
+        init.update(ap=list(ap), keys=[])
+    elif kind == 'd':
+        shape = rng.choice(['holes', 'holes', 'single', 'year-ends', 'unsorted', 'full'])
+        a = rng.randrange(1, n - 2)
+        ap = _date(leap, a) + (rng.choice([0, 0, 6]),) + _date(leap, a + rng.randrange(0, 3)) + (rng.choice([23, 23, 18]), ts, leap)
+        if shape == 'year-ends':
+            ap = (12, 31, 0, 1, 1, 23, ts, leap)
+        base = _ref_moys(ap)
+        if len(base) > 600:
+            base = base[:300] + base[-300:]
+        if shape == 'single':
+            keys = [rng.choice([base[0], base[-1], rng.choice(base)])]
+        elif shape == 'full':
+            keys = list(base)
+        else:
+            keys = [m for m in base if rng.random() < 0.6] or base[:1]
+        if shape == 'unsorted':
+            rng.shuffle(keys)
+        nv = len(keys)
+        init.update(ap=list(ap), keys=keys)
+    elif kind == 'y':
+        ap = _key_period(rng, leap, ts=rng.choice([1, 1, 2])) if rng.random() < 0.5 else (1, 1, 0, 12, 31, 23, 1, leap)
+        shape = rng.choice(['full', 'ends', 'random', 'single'])
+        if shape == 'full':
+            keys = list(range(1, n + 1))
+        elif shape == 'ends':
+            keys = [1, 2, 59, 60, 61, n - 1, n]
+        elif shape == 'single':
+            keys = [rng.choice([1, 60, n])]
+        else:
+            keys = sorted(rng.sample(range(1, n + 1), rng.choice([3, 10, 40])))
+        nv = len(keys)
+        init.update(ap=list(ap), keys=keys)
+    elif kind == 'm':
+        ap = _key_period(rng, leap, ts=1) if rng.random() < 0.5 else (1, 1, 0, 12, 31, 23, 1, leap)
+        keys = rng.choice([list(range(1, 13)), [12, 1, 2], [1], [12], sorted(rng.sample(range(1, 13), 5))])
+        nv = len(keys)
+        init.update(ap=list(ap), keys=keys)
+    else:
+        ts = rng.choice([1, 2, 4, 6])
+        step = 60 // ts
+        ap = _key_period(rng, leap, ts=ts)
+        months = rng.sample(range(1, 13), 2) + [12]
+        allk = [(mo, h, mi) for mo in months for h in range(24) for mi in range(0, 60, step)]
+        keys = [list(k) for k in rng.sample(allk, rng.choice([1, 5, 30]))]
+        nv = len(keys)
+        init.update(ap=list(ap), keys=keys)
+    r = rng.random()
+    if r < 0.35:
+        init['vals'] = list(range(nv))
+    else:
+        init['vals'] = [rng.randrange(-20, 21) for _ in range(nv)]
+    if not model_only and kind != 'p' and rng.random() < 0.3:
+        init['dtype'] = 'temp'
+    return init
+
+
+def _hist_read(rng, sh, model_only):
+    """One question to the object in its current public state (mostly inside the quantifier)."""
+    kind = sh.kind
+    keys = sh.keys
+    n = len(keys)
+    t = rng.choice(['keys', 'keys', 'period', 'period', 'pattern', 'range', 'stmt', 'all', 'hoys'])
+    if t == 'hoys' and kind not in 'cd':
+        t = 'keys'
+    if t == 'stmt' and sh.temp:
+        t = 'range'
+    if t in ('keys', 'hoys'):
+        k = rng.choice([1, 1, 2, 5, min(n, 20)])
+        req = rng.sample(keys, min(k, n))
+        if rng.random() < 0.3:
+            req = list(OrderedDict.fromkeys([keys[0], keys[-1]] + req))
+        if rng.random() < 0.12:         # not in the collection / nothing at all
+            req = req + [rng.choice([-60, 0, 1, 366, 367, 13, 527040, 999999])] if kind != 'p' else req + [(13, 0, 0)]
+            if rng.random() < 0.3:
+                req = []
+        if t == 'hoys':
+            return ['hoys', [m / 60.0 for m in req]]
+        return ['keys', [list(x) if isinstance(x, tuple) else x for x in req]]
+    if t == 'period':
+        pre = rng.choice(['', '', '', 'moys', 'len', 'hoys', 'datetimes', 'doys_int', 'months_int'])
+        if kind == 'c':
+            fk = rng.choice(PERIOD_KINDS)
+            f = _gen_filter(rng, sh.ap, fk)
+        elif kind == 'd':
+            a = (keys[0] // 1440) + 1
+            nd = _ndays(sh.ap[7])
+            fa = max(1, a - rng.randrange(0, 2))
+            fb = min(nd, fa + rng.randrange(0, 4))
+            shh, ehh = rng.choice([(0, 23), (0, 23), _rand_window(rng)])
+            f = _date(sh.ap[7], fa) + (shh,) + _date(sh.ap[7], fb) + (ehh, sh.ap[6], sh.ap[7])
+            if rng.random() < 0.25:
+                f = (12, 31, shh, 1, 1, ehh, sh.ap[6], sh.ap[7])
+            if rng.random() < 0.06:
+                f = f[:6] + (rng.choice([x for x in VALID_TS if x != sh.ap[6]]), sh.ap[7])
+        else:
+            f = _key_period(rng, sh.ap[7] if rng.random() < 0.92 else not sh.ap[7], ts=rng.choice([1, 2, 4]))
+        if _fsteps(f) > 6000:
+            f = f[:6] + (sh.ap[6] if kind in 'cd' else 1, f[7])
+            if _fsteps(f) > 6000 and not (f[2] == 0 and f[5] == 23):
+                f = f[:2] + (0,) + f[3:5] + (23,) + f[6:]
+        if _fsteps(f) > 2000 and pre in ('moys', 'hoys', 'datetimes'):
+            pre = rng.choice(['', 'doys_int', 'months_int'])       # enumerating a long period costs 10-50 ms
+        return ['period', list(f), pre]
+    if t == 'pattern':
+        plen = rng.choice([1, 1, 2, 3, 7, n, n + 2, max(1, n - 1), 0])
+        pat = [rng.random() < 0.5 for _ in range(plen)]
+        if rng.random() < 0.15:
+            pat = [rng.random() < 0.5] * plen
+        return ['pattern', pat]
+    if t == 'range':
+        if sh.temp:
+            pool = [None, None, 0, 0.0, -5, 5, 273.15, 32.0]
+        elif model_only:
+            pool = [None, None, 0, 0, -5, 5, int(rng.choice(sh.vals)), int(min(sh.vals)), int(max(sh.vals))]
+        else:
+            pool = [None, None, 0, 0, 0.0, -0.0, -5, 5, rng.choice(sh.vals), min(sh.vals), max(sh.vals)]
+        return ['range', rng.choice(pool), rng.choice(pool)]
+    if t == 'stmt':
+        return ['stmt', rng.randrange(4), rng.randrange(-20, 20), rng.randrange(1, 6), rng.randrange(0, 3)]
+    return ['all']
+
+
+def _gen_history(rng, model_only, nops=None):
+    """(init, ops): a generated history; the generator follows the public state with `_Shadow` under
+    the acceptance rules of the unchanged implementation, so that later questions refer to steps that
+    are present."""
+    init = _hist_init(rng, model_only)
+    sh = _Shadow(init)
+    ops = []
+    nops = nops or rng.choice([3, 5, 7, 9, 12])
+    first_refused = rng.random() < 0.15
+    while len(ops) < nops:
+        n = len(sh.vals)
+        r = rng.random()
+        if first_refused and not ops:
+            r = 0.62
+        elif ops and ops[-1][0] not in ('read', 'repeat') and rng.random() < 0.7:
+            r = 0.0                       # a question right after a setter / refused operation / conversion
+        if r < 0.5:
+            rd = _hist_read(rng, sh, model_only)
+            ops.append(['read', rd])
+            sh.last = rd
+            continue
+        if r < 0.56:
+            ops.append(['repeat'])
+            continue
+        if r < 0.7:                       # operations the implementation refuses
+            cand = [['setv', [rng.randrange(-9, 10) for _ in range(rng.choice([n + 1, max(0, n - 1), 0, 2 * n + 1]))]],
+                    ['setbad', rng.choice([0, 0, 1])],
+                    ['seti', rng.choice([n, -n - 1, n + 5]), rng.randrange(-9, 10)],
+                    ['cull', rng.choice([0, 7, 8, 9, 61, 24])]]
+            if not model_only:
+                cand.append(['unit', 'X'])
+            if sh.kind != 'c':
+                cand.append(['todisc'])
+            if not sh.mutable:            # everything is refused by an immutable twin
+                cand += [['setv', [rng.randrange(-9, 10) for _ in range(n)]], ['seti', rng.randrange(-n, n), 3],
+                         ['cull', 1]]
+            op = rng.choice(cand)
+            if sh.accepts(op):
+                continue
+            ops.append(op)
+        elif r < 0.88:                    # accepted setters / in-place operations
+            cand = [['setv', [rng.randrange(-20, 21) for _ in range(n)]],
+                    ['seti', rng.choice([0, -1, n - 1, -n, rng.randrange(-n, n)]), rng.choice([0, rng.randrange(-20, 21)])]]
+            if sh.kind == 'c':
+                cand += [['cull', x] for x in VALID_TS if sh.ap[6] % x == 0 and x != sh.ap[6]][:3]
+            elif sh.kind == 'd':
+                fit = [x for x in VALID_TS if any(m % (60 // x) == 0 for m in sh.keys)]
+                cand += [['cull', rng.choice(fit)], ['cull', rng.choice(fit)]] if fit else []
+            if sh.temp and not model_only:
+                cand += [['unit', rng.choice(['K', 'F', 'C', 'ip', 'si'])]] * 2
+            op = rng.choice(cand)
+            if not sh.accepts(op):
+                continue
+            if op[0] == 'unit':           # the generator cannot know the converted values: stop following
+                ops.append(op)
+                ops.append(['read', ['all']])
+                ops.append(['read', ['pattern', [True, False]]])
+                break
+            if not sh.apply(op):
+                break
+            ops.append(op)
+        elif r < 0.95:
+            op = [rng.choice(['dup', 'toimm', 'tomut', 'todisc' if sh.kind == 'c' else 'dup'])]
+            if not sh.apply(op):
+                break
+            ops.append(op)
+        else:                             # go on with the result of a filter
+            rd = _hist_read(rng, sh, model_only)
+            exp = sh.expect(rd)
+            if exp is None or rd[0] == 'all':
+                continue
+            want = exp['want']
+            if rd[0] == 'period' and sh.kind == 'c':
+                f = _apsubset_ref(sh.ap, tuple(rd[1]))
+                if f is None:
+                    continue
+                if f[2] == 0 and f[5] == 23:
+                    sh.become('c', f, [m for m, _ in want], [v for _, v in want])
+                else:
+                    sh.become('d', f, [m for m, _ in want], [v for _, v in want])
+            elif rd[0] == 'period':
+                sh.become(sh.kind, tuple(rd[1]), [m for m, _ in want], [v for _, v in want])
+            elif rd[0] in ('keys', 'hoys') and sh.kind == 'c':
+                req = rd[1] if rd[0] == 'keys' else [int(round(h * 60)) for h in rd[1]]
+                at = dict(want)
+                sh.become('d', sh.ap, req, [at[m] for m in req])
+            else:
+                sh.become('d' if sh.kind == 'c' else sh.kind, sh.ap, [m for m, _ in want], [v for _, v in want])
+            ops.append(['chain', rd])
+            sh.last = rd
+    ops.append(['read', _hist_read(rng, sh, model_only)])
+    ops.append(['read', ['all']])
+    return init, ops
+
+
+def _apsubset_ref(src, f):
+    """Header period the continuous period filter gives its result when the filter lies inside the
+    source (then it is the filter itself); None when the filter is clipped (the generator does not
+    continue with such a result)."""
+    fm, sset = _ref_moys(f), set(_ref_moys(src))
+    return f if all(m in sset for m in fm) else None
+
+
+# ---------------------------------------------------------------------------------------------
+# process-order independence: a slice of the oracle stream in fresh Python processes, each with its
+# own order of the cases (module / class level state polluted by an earlier case shows as a failure
+# that carries the order)
+
+
+def _worker_main():
+    """Entry point of the fresh process: evaluate the cases read from stdin in the order given."""
+    data = json.load(sys.stdin)
+    out = []
+    for op, inp in data['cases']:
+        try:
+            res = check_case(op, inp)
+        except Exception as e:
+            res = {'required': 'oracle evaluates', 'observed': 'exception %s: %s' % (type(e).__name__, e),
+                   'sig': {'exception': type(e).__name__}}
+        out.append(res)
+    sys.stdout.write('\n@@RESULT@@' + json.dumps(out, default=str))
+
+
+def _fresh_process(cases, timeout=600):
+    """Run `check_case` on the (op, inp) pairs, in this order, in a fresh interpreter."""
+    from harness.core import REPO, ROOT
+    code = ('import sys; sys.path[:0] = [%r, %r]; from harness.props import c02; c02._worker_main()' % (REPO, ROOT))
+    env = dict(os.environ, LADYBUG_REPO=REPO)
+    p = subprocess.run([sys.executable, '-c', code], input=json.dumps({'cases': cases}).encode('utf-8'),
+                       stdout=subprocess.PIPE, stderr=subprocess.PIPE, env=env, timeout=timeout)
+    out = p.stdout.decode('utf-8', 'replace')
+    if p.returncode != 0 or '@@RESULT@@' not in out:
+        msg = 'fresh process failed (exit %d): %s' % (p.returncode, p.stderr.decode('utf-8', 'replace')[-400:])
+        return [{'required': 'the cases evaluate in a fresh process', 'observed': msg,
+                 'sig': {'what': 'process', 'exit': p.returncode}}] + [None] * (len(cases) - 1)
+    return json.loads(out.split('@@RESULT@@')[1])
+
+
+def _check_procorder(inp):
+    """Replay of a process-order failure: the cases of `inp['order']` (ids into `inp['cases']`) evaluated in a
+    fresh process in that order; the verdict is the one of the last case."""
+    cases = [inp['cases'][str(i)] for i in inp['order']]
+    res = _fresh_process(cases)
+    bad = [(i, r) for i, r in zip(inp['order'], res) if r]
+    if not bad:
+        return None
+    i, r = bad[-1] if bad[-1][0] == inp['order'][-1] else bad[0]
+    sig = dict(r.get('sig') or {})
+    sig['process_order'] = True
+    return _fail('%s (case %s, evaluated in a fresh process after the cases %s)' % (r.get('required'), i, inp['order'][:-1]),
+                 r.get('observed'), sig)
+
+
+def _rarity(case):
+    """Sort key that puts the rare classes first: leap, wrapping, sub-hourly, immutable, refused-first."""
+    op, inp = case
+    src = inp.get('src') or (inp.get('init') or {}).get('ap') or [1, 1, 0, 12, 31, 23, 1, False]
+    score = 0
+    score += 4 if src[7] else 0
+    score += 3 if (src[0], src[1]) > (src[3], src[4]) else 0
+    score += 2 if src[6] > 4 else (1 if src[6] > 1 else 0)
+    if op == 'history':
+        score += 2 if not inp['init']['mutable'] else 0
+        ops = inp['ops']
+        score += 3 if ops and ops[0][0] in ('setv', 'setbad', 'seti', 'cull', 'unit', 'todisc') else 0
+    return -score
+
+
+def _process_order(ctx, cases):
+    """Evaluate `cases` in 2-4 fresh processes with different orders; record failures with a replay."""
+    nproc = ctx.n(2, 4) if not ctx.searching else 4
+    idx = list(range(len(cases)))
+    orders = [sorted(idx, key=lambda i: (_rarity(cases[i]), i)),
+              sorted(idx, key=lambda i: (-_rarity(cases[i]), -i))]
+    while len(orders) < nproc:
+        o = list(idx)
+        ctx.rng.shuffle(o)
+        orders.append(o)
+    for k, order in enumerate(orders[:nproc]):
+        res = _fresh_process([cases[i] for i in order])
+        ctx.count('process_order:processes')
+        ctx.count('process_order:cases', len(order))
+        for pos, (i, r) in enumerate(zip(order, res)):
+            ctx.case(('procorder', k, i))
+            if not r:
+                continue
+            op, inp = cases[i]
+            if (r.get('sig') or {}).get('state') == 'cont-cull-nondividing':     # the recorded finding (corpus)
+                ctx.fail(op, inp, r.get('required'), r.get('observed'), r.get('sig'))
+                continue
+            alone = _fresh_process([cases[i]])[0] if pos > 0 else r
+            if alone:                       # fails on its own: the plain case is the replay
+                ctx.fail(op, inp, alone.get('required'), alone.get('observed'), alone.get('sig'))
+            else:                           # needs the cases evaluated before it
+                prefix = order[:pos + 1]
+                pinp = {'order': prefix, 'cases': dict((str(j), cases[j]) for j in prefix)}
+                sig = dict(r.get('sig') or {})
+                sig['process_order'] = True
+                ctx.fail('procorder', pinp, '%s (case %d, evaluated in a fresh process after the cases %s)'
+                         % (r.get('required'), i, prefix[:-1]), r.get('observed'), sig)
+            break                           # one replay per process is enough
+
+
 replay = check_case
 
 # witnesses of the repaired defects and of the open finding (always evaluated)
@@ -1111,6 +2097,39 @@ CORPUS = [
                 'filter': [3, 30, 0, 4, 2, 23, 2, False]}),
     ('period', {'src': [2, 27, 0, 3, 2, 23, 6, True], 'path': 'cont', 'fkind': 'single',
                 'filter': [2, 29, 0, 2, 29, 23, 6, True]}),
+    # rare classes: bounds of exactly zero (int and float), the first minute / hour / day / month of the year,
+    # one-element patterns
+    ('values', {'src': [1, 1, 0, 1, 1, 23, 1, False], 'cls': 'cont', 'keys': [], 'kind': 'range', 'lo': 0, 'hi': None,
+                'vals': [-3, -1, 0, 1, 2, 0, -2, 5, 0, 0, 1, -1, 3, -3, 0, 2, -2, 4, -4, 0, 1, 1, -1, 7]}),
+    ('values', {'src': [1, 1, 0, 1, 1, 23, 1, False], 'cls': 'cont', 'keys': [], 'kind': 'range', 'lo': None, 'hi': 0.0,
+                'vals': [-3, -1, 0, 1, 2, 0, -2, 5, 0, 0, 1, -1, 3, -3, 0, 2, -2, 4, -4, 0, 1, 1, -1, 7]}),
+    ('values', {'src': [1, 1, 0, 12, 31, 23, 1, True], 'cls': 'monthly', 'keys': list(range(1, 13)), 'kind': 'range',
+                'lo': 0.0, 'hi': 0, 'vals': [-3, -1, 0, 1, 2, 0, -2, 5, 0, 0, 1, -1]}),
+    ('values', {'src': [1, 1, 0, 12, 31, 23, 1, True], 'cls': 'daily', 'keys': [1, 2, 3], 'kind': 'range',
+                'lo': -1, 'hi': 0, 'vals': [-0.5, 0, 0.5]}),
+    ('values', {'src': [1, 1, 0, 12, 31, 23, 1, True], 'cls': 'daily', 'keys': [1, 60, 366], 'kind': 'pattern',
+                'pattern': [True], 'vals': [0, 0, 0]}),
+    ('moys', {'src': [1, 1, 0, 12, 31, 23, 1, False], 'path': 'both', 'req': [0]}),
+    ('hoys', {'src': [1, 1, 0, 12, 31, 23, 1, True], 'path': 'both', 'req': [0], 'foreign': []}),
+    ('keys', {'src': [1, 1, 0, 12, 31, 23, 1, False], 'cls': 'daily', 'by': 'keys', 'keys': [1], 'req': [1]}),
+    ('keys', {'src': [1, 1, 0, 12, 31, 23, 1, False], 'cls': 'monthly', 'by': 'keys', 'keys': [1, 12], 'req': [1, 0]}),
+    # histories: read -> in-place cull -> read; refused assignment -> read; immutable twin
+    ('history', {'init': {'kind': 'd', 'mutable': True, 'validated': False, 'dtype': 'id', 'ap': [6, 21, 0, 6, 21, 23, 4, False],
+                          'keys': [246240 + 15 * i for i in range(96)], 'vals': list(range(96))},
+                 'ops': [['read', ['keys', [246240, 246255]]], ['cull', 1], ['read', ['keys', [246240, 246300]]],
+                         ['read', ['period', [6, 21, 9, 6, 21, 11, 1, False], '']], ['read', ['all']]]}),
+    ('history', {'init': {'kind': 'c', 'mutable': True, 'validated': True, 'dtype': 'id', 'ap': [3, 1, 0, 3, 1, 23, 1, False],
+                          'keys': [], 'vals': list(range(100, 124))},
+                 'ops': [['setv', [-1] * 25], ['read', ['period', [3, 1, 0, 3, 1, 23, 1, False], '']],
+                         ['read', ['keys', [84960]]], ['setv', []], ['setbad', 1], ['seti', 24, 0], ['read', ['all']]]}),
+    ('history', {'init': {'kind': 'c', 'mutable': False, 'validated': True, 'dtype': 'id', 'ap': [12, 31, 0, 1, 1, 23, 2, True],
+                          'keys': [], 'vals': list(range(96))},
+                 'ops': [['seti', 0, 9], ['cull', 1], ['setv', list(range(96))], ['read', ['keys', [0, 525600]]],
+                         ['tomut'], ['cull', 1], ['read', ['keys', [0, 525600]]], ['read', ['all']]]}),
+    # open finding C02-cont-cull-nondividing-timestep
+    ('history', {'init': {'kind': 'c', 'mutable': True, 'validated': True, 'dtype': 'id', 'ap': [1, 1, 0, 1, 1, 23, 4, False],
+                          'keys': [], 'vals': list(range(96))},
+                 'ops': [['cull', 3], ['read', ['keys', [60]]]]}),
 ]
 
 
@@ -1183,12 +2202,155 @@ def _oracle_cases(ctx):
                          'stmt': [rng.randrange(4), rng.randrange(-20, 20), rng.randrange(1, 6), rng.randrange(0, 3)]}
         yield 'values', {'src': list(hdr), 'cls': 'disc', 'keys': dm, 'vals': dv, 'kind': 'pattern',
                          'pattern': [rng.random() < 0.5 for _ in range(rng.choice([1, 2, 5, len(dm) + 1]))]}
+    for case in _families(rng, 5 if not big else 16):
+        yield case
+    for _ in range(ctx.n(160, 800) * (3 if ctx.searching and ctx.quick else 1)):
+        init, ops = _gen_history(rng, False)
+        _count_history(ctx, 'oracle_hist', init, ops)
+        yield 'history', {'init': init, 'ops': ops}
+
+
+def _families(rng, k):
+    """Cases that differ in ONE coordinate of the configuration (leap flag, timestep, values) and are
+    evaluated next to each other in one process: a memo keyed too coarsely answers the second one with
+    the first one's data."""
+    for _ in range(k):
+        mo, d = rng.randrange(3, 12), rng.randrange(1, 24)       # the same CALENDAR dates in both year kinds
+        length = rng.randrange(2, 6)
+        ts = rng.choice([1, 2, 4])
+        variants = [(ts, False), (ts, True), (rng.choice([x for x in (1, 2, 3, 4, 6) if x != ts]), False), (ts, False)]
+        if rng.random() < 0.5:
+            variants[0], variants[1] = variants[1], variants[0]
+        i, j = sorted((rng.randrange(length), rng.randrange(length)))
+        for vts, leap in variants:
+            for case in _family_cases(mo, d, length, i, j, vts, leap):
+                yield case
+
+
+def _family_cases(mo, d, length, i, j, vts, leap):
+    src = (mo, d, 0, mo, d + length - 1, 23, vts, leap)
+    f = (mo, d + i, 0, mo, d + j, 23, vts, leap)
+    w = f[:2] + (9,) + f[3:5] + (17,) + f[6:]
+    sm = _ref_moys(src)
+    req = [sm[0], sm[-1], sm[len(sm) // 3]]
+    return [('period', {'src': list(src), 'path': 'cont', 'fkind': 'inside', 'filter': list(f)}),
+            ('period', {'src': list(src), 'path': 'disc', 'fkind': 'window', 'filter': list(w)}),
+            ('moys', {'src': list(src), 'path': 'both', 'req': req}),
+            ('hoys', {'src': list(src), 'path': 'both', 'req': req, 'foreign': []})]
+
+
+def _twin_probes(op, inp):
+    """Cases that differ from (op, inp) in one coordinate of the source (leap flag with the same calendar
+    dates, timestep): evaluated right before it in a fresh process they expose state keyed too coarsely."""
+    if op not in ('period', 'moys', 'hoys') or 'src' not in inp:
+        return []
+    src = tuple(inp['src'])
+    out = []
+    alts = []
+    if (src[0], src[1]) != (2, 29) and (src[3], src[4]) != (2, 29):
+        alts.append(src[:7] + (not src[7],))
+    alts.append(src[:6] + (2 if src[6] != 2 else 1, src[7]))
+    for alt in alts:
+        try:
+            sm = _ref_moys(alt)
+            req = [sm[0], sm[-1], sm[len(sm) // 2]]
+            out.append([['moys', {'src': list(alt), 'path': 'both', 'req': req}],
+                        ['hoys', {'src': list(alt), 'path': 'both', 'req': req, 'foreign': []}],
+                        ['period', {'src': list(alt), 'path': 'cont', 'fkind': 'equal', 'filter': list(alt)}],
+                        ['period', {'src': list(alt), 'path': 'cont', 'fkind': 'window',
+                                    'filter': list(alt[:2] + (9,) + alt[3:5] + (17,) + alt[6:])}]])
+        except Exception:
+            pass
+    return out
+
+
+def _isolate_failures(ctx, cases):
+    """A failure seen in this (long-lived) process may need state left by earlier cases: re-evaluate the first
+    few failures alone in a fresh process; one that passes alone is turned into a `procorder` failure whose
+    replay holds the (minimised) list of earlier cases it needs."""
+    done = 0
+    for fl in list(ctx.failures):
+        if done >= 3:
+            break
+        if fl['sig'].get('state') == 'cont-cull-nondividing' or fl['op'] == 'procorder':
+            continue
+        idx = [i for i, c in enumerate(cases) if c[1] is fl['input']]
+        if not idx:
+            continue
+        done += 1
+        f = idx[0]
+        one = [list(cases[f])]
+        if _fresh_process(one)[0]:
+            continue                                  # fails on its own: the plain replay is right
+        runs = [0]
+
+        def fails(prefix):
+            runs[0] += 1
+            return bool(_fresh_process([list(cases[i]) for i in prefix] + one)[-1])
+        prefix = None
+        for k in (25, 150, 1000, f):
+            cand = list(range(max(0, f - k), f))
+            if fails(cand):
+                prefix = cand
+                break
+            if k >= f:
+                break
+        if prefix is None:
+            # state left by the correspondence stage of this process? try the one-coordinate twins of the case
+            for probe in _twin_probes(fl['op'], fl['input']):
+                res = _fresh_process(probe + one)
+                if res[-1] and not any(res[:-1]):
+                    n = len(probe)
+                    fl['input'] = {'order': list(range(n + 1)),
+                                   'cases': dict((str(i), c) for i, c in enumerate(probe + one))}
+                    fl['required'] = '%s (evaluated in a fresh process after %d cases on the same source with one ' \
+                                     'coordinate changed: %s)' % (fl['required'], n, probe[0][1]['src'])
+                    fl['op'] = 'procorder'
+                    fl['sig'] = dict(fl['sig'], process_order=True, op='procorder')
+                    break
+            else:
+                fl['sig'] = dict(fl['sig'], not_reproduced_alone=True)
+            continue
+        n = 2
+        while len(prefix) >= 2 and runs[0] < 16:
+            size = (len(prefix) + n - 1) // n
+            chunks = [prefix[i:i + size] for i in range(0, len(prefix), size)]
+            for ch in chunks:
+                rest = [i for i in prefix if i not in ch]
+                if rest and fails(rest):
+                    prefix, n = rest, max(n - 1, 2)
+                    break
+            else:
+                if n >= len(prefix):
+                    break
+                n = min(len(prefix), 2 * n)
+        order = prefix + [f]
+        fl['op'] = 'procorder'
+        fl['input'] = {'order': order, 'cases': dict((str(i), list(cases[i])) for i in order)}
+        fl['required'] = '%s (case %d, evaluated in a fresh process after the cases %s)' % (fl['required'], f, prefix)
+        fl['sig'] = dict(fl['sig'], process_order=True, op='procorder')
 
 
 def oracle(ctx):
+    cases = []
+
     def counted():
         for op, inp in _oracle_cases(ctx):
-            ctx.count('oracle_%s:%s' % (op, inp.get('fkind') or inp.get('kind') or inp.get('cls') or inp.get('path')))
+            ctx.count('oracle_%s:%s' % (op, inp.get('fkind') or inp.get('kind') or inp.get('cls') or inp.get('path')
+                                        or (inp.get('init') or {}).get('kind')))
+            cases.append((op, inp))
             yield op, inp
     run_oracle_cases(ctx, counted(), check_case)
     _CACHE.clear()
+    _isolate_failures(ctx, cases)
+    # process-order independence: the fixed corpus, the one-coordinate families and a sample of the
+    # histories and of the plain cases, in fresh processes with different orders
+    if len(ctx.failures) < 200:
+        nc = len(CORPUS)
+        small = [c for c in cases[nc:] if c[0] != 'history' and len(json.dumps(c[1])) < 4000]
+        fam = [c for c in small if c[1].get('fkind') in ('inside', 'window') and c[1].get('path') in ('cont', 'disc')][-32:]
+        hist = [c for c in cases if c[0] == 'history']
+        sl = [list(c) for c in (cases[:nc] + ctx.rng.sample(small, min(len(small), ctx.n(30, 120))) +
+                                ctx.rng.sample(hist, min(len(hist), ctx.n(45, 120))))]
+        sl += [list(c) for c in cases[nc:] if c[1].get('path') == 'both' and c[0] in ('moys', 'hoys')][-16:]
+        _process_order(ctx, sl + [list(c) for c in fam])
